@@ -37,7 +37,7 @@ func usesTerm(ds []sDirUse) T {
 	return LS(out)
 }
 
-func argTerm(a *sArg) T { return N("arg", S(a.name), a.t.term(), usesTerm(a.dirs)) }
+func argTerm(a *sArg) T { return N("arg", S(a.name), a.t.term(), usesTerm(a.dirs), B(a.dflt != "")) }
 
 func fieldsTerm(fs []*sField) T {
 	var out []T
@@ -471,6 +471,18 @@ var c13Muts = []c13Mut{
 		d := s.pick(r, "object")
 		d.dirs = append(d.dirs, sDirUse{name: "mark", args: [][2]string{{"zz", "1"}}})
 		return "zz"
+	}},
+	{"R10-required-directive-argument-missing", func(r *Rng, s *sSet) string {
+		s.defs = append(s.defs, &sDef{kind: "directive", name: "need", locs: []string{"OBJECT"}, dirArgs: []*sArg{{name: "n", t: nonNull(named("Int"))}, {name: "m", t: named("Int")}}})
+		d := s.pick(r, "object")
+		d.dirs = append(d.dirs, sDirUse{name: "need", args: [][2]string{{"m", "1"}}})
+		return "n"
+	}},
+	{"V-directive-required-argument-with-default-omitted", func(r *Rng, s *sSet) string {
+		s.defs = append(s.defs, &sDef{kind: "directive", name: "need", locs: []string{"OBJECT"}, dirArgs: []*sArg{{name: "n", t: nonNull(named("Int")), dflt: "4"}}})
+		d := s.pick(r, "object")
+		d.dirs = append(d.dirs, sDirUse{name: "need"})
+		return "need"
 	}},
 	{"R10-uncoercible-directive-argument-on-type", func(r *Rng, s *sSet) string {
 		s.defs = append(s.defs, &sDef{kind: "directive", name: "mark", locs: []string{"OBJECT", "FIELD_DEFINITION"}, dirArgs: []*sArg{{name: "n", t: named("Int")}}})
